@@ -203,4 +203,18 @@ mutual
       rw [updateAt_noop t g c h.1, updateAtItems_noop t g r h.2]
 end
 
+theorem addRoot_keeps (f : Forest) (t b : Tree) (hb : b ∈ f.roots) : b ∈ (f.addRoot t).roots := by
+  unfold Forest.addRoot
+  split
+  · simp [hb]
+  · exact hb
+
+theorem addRoots_keeps (ts : List Tree) : ∀ (f : Forest) (b : Tree), b ∈ f.roots → b ∈ (addRoots f ts).roots := by
+  induction ts with
+  | nil => intro f b hb; exact hb
+  | cons t ts ih =>
+    intro f b hb
+    simp only [addRoots, List.foldl_cons]
+    exact ih _ b (addRoot_keeps f t b hb)
+
 end Pg.Sym
